@@ -483,7 +483,7 @@ func oracleND(c *Ctx, id int, body, impl string) {
 	if s.overlap {
 		scope = "ND:overlap"
 		c.Stats.Count("programs_with_overlapping_bulk_op")
-		if c.Arg("prop", "") == "C01" {
+		if p := c.Arg("prop", ""); p == "C01" || p == "C03" {
 			// C01 speaks about WHICH elements a write changes (same on every path), not about the values an
 			// overlapping copy leaves there; the value question belongs to C02/C03.
 			return
